@@ -34,8 +34,12 @@ def text_of(toks):
             out += t[1]
         elif t[0] == "fmt":
             v = t[4]
+            from ..sopmodel import elem_name
+            if t[1] == "display" and t[3] is None and isinstance(v, Agg) and elem_name(v) is not None:
+                out += "<%s>" % elem_name(v)       # `{}` of a named element = its to_string()
+                continue
             if t[1] != "display" or t[3] is not None or not (isinstance(v, W) and v.val is not None):
-                raise Undecided("non-literal token in text")
+                raise Undecided("non-literal token in text %r" % (t,))
             out += str(v.val)
         elif t[0] == "str_of":
             out += "<%s>" % t[1]
@@ -234,12 +238,16 @@ def run(chk):
                         den = ONE
                     else:
                         parts = txt.split(sep)
-                        if not txt or any(not re.match(r"^<c\d+>$", p_) for p_ in parts):
+                        conj = short in ("Sop", "Esop")     # texts of cubes written next to each other denote their product
+                        if not txt or any(not re.match(r"^(<c\d+>)+$" if conj else r"^<c\d+>$", p_) for p_ in parts):
                             v, d = REFUTED, "%s of terms %s%s prints %r, which is not a formula over its terms joined by %r" % (short, names, (" (zero terms: %s)" % sorted(zeros)) if zeros else "", txt, sep)
                             break
                         den = ZERO
                         for p_ in parts:
-                            den = red(den, val(p_[1:-1]))
+                            prod = ONE
+                            for nm_ in re.findall(r"<(c\d+)>", p_):
+                                prod = B.band(prod, val(nm_))
+                            den = red(den, prod)
                     if den != obj:
                         v, d = REFUTED, "%s of terms %s prints %r, which denotes %s while value() is %s" % (short, names, txt, B.describe(den), B.describe(obj))
                         break
